@@ -69,6 +69,7 @@ inductive PyErr
   | recursionError
   | notImplementedError
   | overflowError
+  | stopIteration
 deriving Repr, BEq, DecidableEq
 
 def PyErr.name : PyErr → String
@@ -81,6 +82,7 @@ def PyErr.name : PyErr → String
   | .recursionError => "RecursionError"
   | .notImplementedError => "NotImplementedError"
   | .overflowError => "OverflowError"
+  | .stopIteration => "StopIteration"
 
 namespace TransformParse
 open Str
